@@ -940,6 +940,8 @@ package ircserver
 //@ func IRCServer.Marshal
 //@   opt sidx0 = true
 //@   requires state: i != nil && wfLocks(i) && sessShape(i) && i.channels != nil && i.svsholds != nil && i.Config.Banned != nil
+// no two sessions own nicknames that are equal under the case mapping (wfOwner, wfNicks: the handlers' invariant)
+//@   requires only-sessnicks-owner: wfOwner(i) && wfNicks(i) && wfAlive(i)
 //@   requires legacy-created: forall x robust.Id :: x in i.sessions ==> i.sessions[x].Created > 0 && !i.sessions[x].LastNonPing.IsZero()
 // user modes are letters: nothing below 'A' is ever set (cmdMode only sets parsed mode letters)
 //@   requires modes-letters: forall x robust.Id, m int :: x in i.sessions && 0 <= m && m < 65 ==> !i.sessions[x].modes[m]
@@ -1007,6 +1009,7 @@ package ircserver
 //@   assert@call proto.Marshal#0 : sess-same: sameslice(snapshot.Sessions, sessions)
 //@   assert@call proto.Marshal#0 : sess-sessions-complete: forall x robust.Id :: x in i.sessions ==> (exists k int :: 0 <= k && k < len(sessions) && snapId(sessions[k]) == x)
 //@   assert@call proto.Marshal#0 : sess-sessions: wfSnapSessions(addrof(snapshot))
+//@   assert@call proto.Marshal#0 : sessnicks: wfSnapNicks(addrof(snapshot))
 //@   assert@call proto.Marshal#0 : sess-sessions-repr: forall k int :: 0 <= k && k < len(sessions) ==> sessEntryOK(sessions[k], i)
 //@   assert@call proto.Marshal#0 : config: snapshot.Config == config && cfgRepr(config, addrof(i.Config)) && cfgTextOK(config)
 //@   assert@call proto.Marshal#0 : config-top: snapshot.LastProcessed != nil && snapshot.LastProcessed.Id == i.lastProcessed.Id && snapshot.LastProcessed.Reply == i.lastProcessed.Reply && snapshot.LastIncludedIndex == lastIncludedIndex
